@@ -88,6 +88,7 @@ func runC06(c *Ctx, r *Report) {
 		"R-C06.6":  "Verify is total for every codec: the entry handed to ToHashable is assigned on every path",
 		"R-C06.7":  "difference admits an entry only on the equal-log-id edge",
 		"R-C06.10": "a log reopened through any loader keeps the access controller it was configured with",
+		"R-C06.13": "the loops that start and apply validation process every candidate",
 		"R-C06.12": "validation examines every error result before the next step overwrites it",
 		"R-C06.11": "the entry objects a merge installs as heads are the log's own validated objects, never the objects handed in by the other log",
 		"control":  "engine positive/negative controls analysed on every run",
@@ -97,6 +98,7 @@ func runC06(c *Ctx, r *Report) {
 	nilControls(c, r, "control")
 	optionForwarding(c, r, "R-C06.10", constructorLogSpecs(), "AccessController")
 	mergedHeadObjects(c, r, "R-C06.11")
+	loopsComplete(c, r, "R-C06.13", func(fn *Fn) bool { return rootNamed(fn, "Join", "Verify", "difference") }, "candidates after the point where the loop stops are merged without having been validated")
 	errDiscipline(c, r, "R-C06.12", func(fn *Fn) bool {
 		return rootNamed(fn, "Verify", "Join", "Append", "CanAppend", "VerifyIdentity")
 	}, "validation goes on as if the failed step had succeeded: an entry whose key, signature or identity could not be checked is treated as checked", deliberateDiscards)
